@@ -31,9 +31,15 @@
 -/
 import Flamego.Base.Bytes
 import Flamego.Model.Writer
+import Flamego.Gen.ConstFacts
 
 namespace Flamego.Ret
 open Flamego.Writer (W)
+
+/-- `w.WriteHeader(http.StatusInternalServerError)` in the error branch of the table: the literal
+    is read from return_handler.go on every run (Gen/ConstFacts) -/
+def errorStatus : Int := Gen.returnErrorStatus
+attribute [simp] errorStatus Gen.returnErrorStatus
 
 inductive RetVal
   | str (b : Bytes)
@@ -131,8 +137,8 @@ def render (ph : Bytes) : Option RetVal → List Act
   | none => []                                                   -- !respVal.IsValid()
   | some v =>
     match asError v with
-    | some (some m) => [.writeHeader 500, .write m]              -- non-nil error
-    | some none => [.writeHeader 500, .panic]                    --   … whose Error() panics
+    | some (some m) => [.writeHeader errorStatus, .write m]              -- non-nil error
+    | some none => [.writeHeader errorStatus, .panic]                    --   … whose Error() panics
     | none =>
       if isZero v then [] else                                   -- respVal.IsZero()
       let v' := if canDeref v then elem v else v                 -- one Elem()
@@ -144,8 +150,8 @@ def renderUnrepaired (ph : Bytes) : Option RetVal → List Act
   | none => []
   | some v =>
     match asError v with
-    | some (some m) => [.writeHeader 500, .write m]
-    | some none => [.writeHeader 500, .panic]
+    | some (some m) => [.writeHeader errorStatus, .write m]
+    | some none => [.writeHeader errorStatus, .panic]
     | none =>
       if isZero v then [] else
       let v' := if canDeref v then elem v else v
